@@ -407,9 +407,9 @@ class MappingMethod(DeserializationMethod):
         items: dict = {}
         for key, value in data.items():
             try:
-                items[self.key_method.deserialize(key)] = self.value_method.deserialize(
-                    value
-                )
+                # key first, like MappingCheckOnly (same error whatever no_copy)
+                new_key = self.key_method.deserialize(key)
+                items[new_key] = self.value_method.deserialize(value)
             except ValidationError as err:
                 item_errors = set_child_error(item_errors, key, err)
         validate_constraints(data, self.constraints, item_errors)
